@@ -35,7 +35,7 @@ EXPLANATION = 'rows-iff-spec and spec-iff-automaton theorems (unbounded in T) ab
 
 
 def scenarios(seed, tier):
-    n = 140 if tier == 'quick' else 1600
+    n = 300 if tier == 'quick' else 3000
     rnd = random.Random(seed * 7919 + 6)
     kinds = ['build', 'build', 'build', 'pattern', 'portfolio']
     for i in range(n):
